@@ -32,7 +32,8 @@ ASSUMPTIONS = [
     "np.linalg.inv/solve contract (adjugate/determinant, det != 0 as requires = full column rank); svd/eig outputs uninterpreted "
     "symbolic factors in the selector obligations",
     "sizes configuration-concrete (values symbolic); ideal reals; log10/pow10 axioms as in C13",
-    "gmd (Givens sweep with data-dependent permutations), QR/principal-angle variants and whitening: bounded, sizes 1..8, cond <= 1e4",
+    "gmd (Givens sweep with data-dependent permutations): proved for p = 2, 3 singular values (all s0 >= .. > 0 by case analysis; ideal "
+    "reals, x**(1/p) as the exact p-th root), p >= 4 bounded; QR/principal-angle variants and whitening: bounded, sizes 1..8, cond <= 1e4",
 ]
 TRUSTED_BASE = ["numpy dot/indexing/argsort executed natively on object arrays", "LAPACK svd/eig/qr in the bounded part"]
 
